@@ -6,7 +6,7 @@ def check(ctx, rep):
     treer.tree_3(ctx, rep)
     treer.tree_4(ctx, rep)
     treer.tree_7(ctx, rep)
-    treer.tree_1(ctx, rep)
+    treer.tree_1(ctx, rep, only=['parso/tree.py', 'parso/python/tree.py'])      # constructors (what unpickling / eval(dump()) run); the diff parser is C04 / C11
     treer.tree_5(ctx, rep)
     treer.tree_0(ctx, rep)
     treer.tree_9(ctx, rep)
